@@ -291,10 +291,16 @@ func c06Drive(c *mc.Ctx, mtu, pi, absID int, start c06Start, ops []c06Op) {
 					c.Failf("fixed-fields", "%s: packet %d has padding", hist(), i)
 				}
 				if last && absID != 0 {
-					if clockIdx != clockBefore+1 {
-						c.Failf("abs-send-time", "%s: the clock was read %d times", hist(), clockIdx-clockBefore)
+					if clockIdx == clockBefore {
+						c.Failf("abs-send-time", "%s: the clock was not read during the call: the extension cannot hold the send instant", hist())
 					}
+					// the send instant is whatever the clock answered during this call (normally one read)
 					want := c06AbsSendTime(c06Clock[clockBefore%len(c06Clock)])
+					for k := clockBefore; k < clockIdx; k++ {
+						if w := c06AbsSendTime(c06Clock[k%len(c06Clock)]); bytes.Equal(pk.GetExtension(uint8(absID)), w) {
+							want = w
+						}
+					}
 					ids := pk.GetExtensionIDs()
 					if !pk.Extension || len(ids) != 1 || int(ids[0]) != absID || !bytes.Equal(pk.GetExtension(uint8(absID)), want) {
 						c.Failf("abs-send-time", "%s: last packet: extension ids %v value %s, want id %d value %s (send instant %s)", hist(), ids, hx(pk.GetExtension(uint8(absID))), absID, hx(want), c06Clock[clockBefore%len(c06Clock)].UTC())
